@@ -15,7 +15,7 @@ from harness import gen_ctx as GC
 from harness import impl as I
 from harness.common import ImplWorker, Model, Report, rng_for, depth
 from harness.props.c01 import sig_case
-from harness.props.c09 import KEYS, expected_for, scopes_along
+from harness.props.c09 import KEYS, expected_for, scopes_along, within_resource_bound
 
 
 def impl_family(fam: dict) -> dict:
@@ -260,10 +260,16 @@ def run(tier: str, seed: int, rep: Report, model: Model) -> dict:
     hists = []
     while len(hists) < n_hist:
         h = gen_history(rnd)
-        if h:
+        if h and within_resource_bound(h):
             hists.append(h)
-    singles = single_cases(rnd, n_single)
-    selfs = [gen_self_history(rnd) for _ in range(depth(tier, 150, 5000))]
+    # (no case beyond the reference's resource bound reaches the extracted model: a power of millions of bits stalls it, DESIGN 10)
+    singles = [(lb, c) for lb, c in single_cases(rnd, n_single) if not ctxrun.beyond_resource_bound(c)]
+    selfs = []
+    while len(selfs) < depth(tier, 150, 5000):
+        sh = gen_self_history(rnd)
+        if not any(ctxrun.beyond_resource_bound({**sh["case"], "provider": {"kind": "self", "scope": dict(st["scope_now"]), "fresh": True}, "args": st["args"],
+                                                 "retval": st.get("retval")}) for st in sh["steps"] if "inst" in st):
+            selfs.append(sh)
     rep.streams.update({"provider_histories": n_hist, "single_calls": len(singles), "self_instance_histories": len(selfs)})
     worker = ImplWorker("harness.props.c12")
     try:
